@@ -158,6 +158,24 @@ def confirm_alone_job(arg):
     return r1, r2
 
 
+def run_alone_inproc(p: progspace.Program, runs=2, extra_argv=()):
+    spec = {
+        "codemod": p.seed.codemod,
+        "items": [(p.pid, p.seed.file, p.src)],
+        "extra": {s: progspace.SIBLING_CONTENT.get(s, b"") for s in p.seed.siblings},
+        "tool": p.seed.tool,
+        "docs": [p.results_doc(p.seed.file)] if p.seed.tool else None,
+        "runs": runs,
+        "argv": list(extra_argv),
+    }
+    return batch_job(spec)[0]
+
+
+def confirm_alone_inproc_job(arg):
+    p, runs, extra_argv = arg
+    return run_alone_inproc(p, runs, extra_argv), run_alone_inproc(p, runs, extra_argv)
+
+
 def program_replay(p: progspace.Program, extra=None) -> dict:
     d = {
         "pid": p.pid,
